@@ -162,6 +162,7 @@ type SrvFid struct {
 	sync.Mutex
 	fid       uint32
 	refcount  int
+	destroyed bool        // True once the SrvFidOps were told that the fid is gone
 	opened    bool        // True if the SrvFid is opened
 	Fconn     *Conn       // Connection the SrvFid belongs to
 	Omode     uint8       // Open mode (O* flags), if the fid is opened
@@ -539,7 +540,22 @@ func (fid *SrvFid) DecRef() {
 	delete(conn.fidpool, fid.fid)
 	conn.Unlock()
 
-	if fop, ok := (conn.Srv.ops).(SrvFidOps); ok {
+	fid.destroy()
+}
+
+// Tells the file server implementation that the fid is gone. A fid can be
+// given up both by its last user and by its connection closing while requests
+// that use it are still executing; the implementation hears about it once.
+func (fid *SrvFid) destroy() {
+	fid.Lock()
+	destroyed := fid.destroyed
+	fid.destroyed = true
+	fid.Unlock()
+	if destroyed {
+		return
+	}
+
+	if fop, ok := (fid.Fconn.Srv.ops).(SrvFidOps); ok {
 		fop.FidDestroy(fid)
 	}
 }
